@@ -32,7 +32,7 @@ class Foo(HasTraits):
 
 
 KINDS = ["const", "anylist", "anydict", "list", "dict", "set", "inst", "factory", "dyn", "tuplelist", "tuple3",
-         "unionlist", "dictlist", "listlist", "anysublist", "anyodict", "dynenumdyn"]
+         "unionlist", "dictlist", "listlist", "anysublist", "anyodict", "dynenumdyn", "uniondef"]
 
 
 class Tags(list):
@@ -46,6 +46,9 @@ def decl(kind):
         return Any([1, 2]), [1, 2]
     if kind == "anydict":
         return Any({"a": 1}), {"a": 1}
+    if kind == "uniondef":
+        # the default given to the Union itself, as a plain list
+        return Union(List(Int), None, default_value=[1]), [1]
     if kind == "dynenumdyn":
         # a PROPERTY-style trait (its value lives in a cache slot) whose default comes from a method
         from traits.api import Enum
@@ -80,7 +83,7 @@ def decl(kind):
     raise AssertionError(kind)
 
 
-ASSIGN = {"dynenumdyn": 3, "anysublist": [3], "anyodict": {"b": 2}, "const": 1, "anylist": [3], "anydict": {"b": 2}, "list": [3], "dict": {"b": 2}, "set": {3}, "inst": None,
+ASSIGN = {"uniondef": [3], "dynenumdyn": 3, "anysublist": [3], "anyodict": {"b": 2}, "const": 1, "anylist": [3], "anydict": {"b": 2}, "list": [3], "dict": {"b": 2}, "set": {3}, "inst": None,
           "factory": [3], "dyn": [3], "tuplelist": ([3], 1), "tuple3": ("s", {"q": 1}, 2), "unionlist": [3],
           "dictlist": {"q": [3]}, "listlist": [[3]]}
 
@@ -188,6 +191,7 @@ def run(case, ctx):
     ns["v_"] = Float(1.5)            # every undeclared name v_<something> is a Float
     Base = type("Base", (HasTraits,), ns)
     subns = {}
+    over_anylist = set()
     sub_default = dict(model_default)
     for i in case["sub_over"]:
         i = i % len(kinds)
@@ -201,6 +205,10 @@ def run(case, ctx):
         elif kinds[i] == "dict":
             subns[nm] = {"z": 0}
             sub_default[nm] = {"z": 0}
+        elif kinds[i] == "anylist":
+            subns[nm] = [5]              # a plain list in the subclass body over the base's Any([1, 2])
+            sub_default[nm] = [5]
+            over_anylist.add(nm)
     Sub = type("Sub", (Base,), subns)
     insts, models, keep = [], [], []
 
@@ -221,6 +229,14 @@ def run(case, ctx):
 
     def mk_obs(me):
         return lambda e: log.append((me, "obs", e.object.__dict__.get("_serial")))
+
+    def fsig(attr):
+        """Known families: F50 (the Union's own default_value list), F50b (plain list over an inherited Any list default)."""
+        if attr in names and kinds[names.index(attr)] == "uniondef":
+            return "/union-default-value"
+        if attr in over_anylist:
+            return "/subclass-list-over-any"
+        return ""
 
     def defaults_of(cls):
         return sub_default if cls is Sub else model_default
@@ -345,7 +361,7 @@ def run(case, ctx):
                     continue
                 if n2 in got:
                     if plain(got[n2]) != plain(expected(j, n2)):
-                        ctx.fail("default/value", "trait_get()[%s] = %r, expected %r: %s" % (n2, plain(got[n2]), plain(expected(j, n2)), what))
+                        ctx.fail("default/value" + fsig(n2), "trait_get()[%s] = %r, expected %r: %s" % (n2, plain(got[n2]), plain(expected(j, n2)), what))
                     m["read"].add(n2)
                     m["vals"].setdefault(n2, plain(got[n2]))
             if log:
@@ -364,7 +380,7 @@ def run(case, ctx):
                 if v is not v2:
                     ctx.fail("default/not-same-object", "two reads of %s (%s) return different objects: %s" % (nm, kind, what))
                 if plain(v) != plain(expected(j, nm)):
-                    ctx.fail("default/value", "%s (%s) reads %r, expected %r: %s" % (nm, kind, plain(v), plain(expected(j, nm)), what))
+                    ctx.fail("default/value" + fsig(nm), "%s (%s) reads %r, expected %r: %s" % (nm, kind, plain(v), plain(expected(j, nm)), what))
                 if log:
                     ctx.fail("default/read-notified", "reading %s (%s) reached handlers %r: %s" % (nm, kind, log, what))
                 m["read"].add(nm)
@@ -443,7 +459,7 @@ def run(case, ctx):
                 for n2, v2 in models[jj]["vals"].items():
                     cur = oo.__dict__.get(n2, None) if n2 in oo.__dict__ else getattr(oo, n2)
                     if plain(cur) != v2:
-                        ctx.fail("isolation/value", "instance #%d.%s changed to %r (model %r) by %s" % (jj, n2, plain(cur), v2, what))
+                        ctx.fail("isolation/value" + fsig(n2), "instance #%d.%s changed to %r (model %r) by %s" % (jj, n2, plain(cur), v2, what))
                 extra_names = {n for n in oo.trait_names() if not n.startswith("v_")} - \
                     set(class_names[1] if models[jj]["cls"] is Sub else class_names[0]) - models[jj]["extra"]
                 if extra_names:
@@ -454,7 +470,7 @@ def run(case, ctx):
                 if n2 in oo.__dict__:
                     for cid in containers(oo.__dict__[n2], set()):
                         if cid in seen and seen[cid] != jj:
-                            ctx.fail("isolation/shared-container", "instances #%d and #%d share a container in %s: %s"
+                            ctx.fail("isolation/shared-container" + fsig(n2), "instances #%d and #%d share a container in %s: %s"
                                      % (seen[cid], jj, n2, what))
                         seen[cid] = jj
         for jj, oo in enumerate(insts):
@@ -464,7 +480,10 @@ def run(case, ctx):
         if raw_class() != raw_base:
             ctx.fail("isolation/class-definitions", "class-level trait tables changed: %r -> %r: %s" % (raw_base, raw_class(), what))
         if (class_state(Base), class_state(Sub)) != base_state:
-            ctx.fail("isolation/class-definitions", "class-level trait definitions changed: %r -> %r: %s"
+            now_state = (class_state(Base), class_state(Sub))
+            changed_names = {n_ for a_, b_ in zip(base_state, now_state) for n_ in set(a_) | set(b_) if a_.get(n_) != b_.get(n_)}
+            sigs = {fsig(n_) for n_ in changed_names}
+            ctx.fail("isolation/class-definitions" + (sigs.pop() if len(sigs) == 1 else ""), "class-level trait definitions changed: %r -> %r: %s"
                      % (base_state, (class_state(Base), class_state(Sub)), what))
         if (sorted(Base.class_trait_names()), sorted(Sub.class_trait_names())) != class_names:
             ctx.fail("isolation/class-definitions", "class trait names changed: %s" % what)
@@ -473,11 +492,11 @@ def run(case, ctx):
             fresh = (Sub if op[1] % 2 else Base)()
             fm = defaults_of(type(fresh))
             if plain(getattr(fresh, nm)) != plain(copy.deepcopy(fm[nm])):
-                ctx.fail("isolation/fresh-default", "a new instance reads %s = %r, declared default %r: %s"
+                ctx.fail("isolation/fresh-default" + fsig(nm), "a new instance reads %s = %r, declared default %r: %s"
                          % (nm, plain(getattr(fresh, nm)), fm[nm], what))
             for cid in containers(fresh.__dict__.get(nm), set()):
                 if cid in seen:
-                    ctx.fail("isolation/shared-container", "a new instance shares a container of %s with instance #%d: %s"
+                    ctx.fail("isolation/shared-container" + fsig(nm), "a new instance shares a container of %s with instance #%d: %s"
                              % (nm, seen[cid], what))
             del fresh
     for key, c in dyncalls.items():
